@@ -19,12 +19,6 @@ def InScope (f : Die) (pc : Nat) (e : Entry) : Prop :=
   e ∈ descP [] f ∧ e.2.info.tag = Tag.variable ∧
     ∀ i, nearestScope e.1 = some i → ∃ r ∈ i.ranges, r.lo ≤ pc ∧ pc < r.hi
 
-theorem inRanges_iff (rs : List Range) (pc : Nat) : inRanges rs pc = true ↔ ∃ r ∈ rs, r.lo ≤ pc ∧ pc < r.hi := by
-  simp [inRanges, Range.contains]
-
-theorem isScope_iff (i : Info) : i.isScope = true ↔ (i.tag = Tag.block ∨ i.tag = Tag.subprogram) := by
-  simp [Info.isScope]
-
 theorem nearestScope_eq (p : Path) : nearestScope p = p.find? Info.isScope := by
   unfold nearestScope
   congr 1; funext i
@@ -115,11 +109,6 @@ def candidates (f : Die) (pc n : Nat) : List Entry := (bfs f).filter (isCandidat
 /-- the named (decidable) hypothesis of the partial theorem: the name is not shadowed at this pc -/
 def NoShadow (f : Die) (pc n : Nat) : Bool := decide ((candidates f pc n).length ≤ 1)
 
-theorem length_le_one_eq {α} {l : List α} (h : l.length ≤ 1) {a b : α} (ha : a ∈ l) (hb : b ∈ l) : a = b := by
-  match l, h with
-  | [x], _ => simp at ha hb; rw [ha, hb]
-  | [], _ => simp at ha
-
 /-- **C19_shadow_innermost_partial.** Where the name has at most one live binding, `var <name>` shows that binding
     (so it is trivially the innermost one). -/
 theorem C19_shadow_innermost_partial (f : Die) (pc n : Nat) (hns : NoShadow f pc n = true) (v : Entry)
@@ -187,13 +176,6 @@ def C19_loclist_entry_full : Prop :=
 /-- named decidable hypothesis: the pc is not the (exclusive) end address of an entry -/
 def NotAtEntryEnd (es : List LocEntry) (pc : Nat) : Bool := es.all fun e => decide (e.hi ≠ pc)
 
-theorem find?_congr' {α} {l : List α} {p q : α → Bool} (h : ∀ a ∈ l, p a = q a) : l.find? p = l.find? q := by
-  induction l with
-  | nil => rfl
-  | cons a rest ih =>
-    simp only [List.find?_cons, h a (by simp)]
-    rw [ih (fun b hb => h b (List.mem_cons_of_mem _ hb))]
-
 /-- **C19_loclist_entry_partial.** Away from entry end addresses the code selects exactly the entry DWARF prescribes
     (first entry whose half-open range contains the pc), for every list (sorted or not, overlapping or not). -/
 theorem C19_loclist_entry_partial (es : List LocEntry) (pc : Nat) (h : NotAtEntryEnd es pc = true) :
@@ -202,7 +184,7 @@ theorem C19_loclist_entry_partial (es : List LocEntry) (pc : Nat) (h : NotAtEntr
   have hall : ∀ e ∈ es, e.hi ≠ pc := by simpa [NotAtEntryEnd] using h
   have heq : selectEntry es pc = selectSpec es pc := by
     unfold selectEntry selectSpec
-    apply find?_congr'
+    apply find_congr_on
     intro e he
     have := hall e he
     simp only [LocEntry.hit, LocEntry.covers]
@@ -234,39 +216,6 @@ theorem accLoclist_spec : selectSpec accLoclist 0xba15 = some ⟨0xba15, 0xba2f,
 def abiTable : List (Nat × Nat) :=
   [(0, 0), (1, 3), (2, 2), (3, 1), (4, 5), (5, 4), (6, 6), (7, 7), (8, 8), (9, 9), (10, 10), (11, 11), (12, 12), (13, 13),
    (14, 14), (15, 15), (16, 16), (49, 17), (50, 26), (51, 18), (52, 24), (53, 25), (54, 22), (55, 23), (58, 20), (59, 21)]
-
-theorem insertAt_map {g : Option Nat → Option Nat} (xs : List (Option Nat)) (i : Nat) (v : Option Nat) :
-    (insertAt xs i v).map g = insertAt (xs.map g) i (g v) := by
-  simp [insertAt, List.map_take, List.map_drop]
-
-/-- the positions `DwarfRegisterMap::from` writes to do not depend on the register VALUES: the map for arbitrary
-    field values is the map for the labels 0,1,2,… with every label replaced by the field value -/
-theorem dwarfMapFrom_natural (init : Nat) (ins : List (Nat × Nat)) (fields : List Nat) (k : Nat)
-    (hk : ∀ p ∈ ins, p.2 < k) :
-    dwarfMapFrom init ins fields = (dwarfMapFrom init ins (List.range k)).map (fun o => o.bind fun i => fields[i]?) := by
-  unfold dwarfMapFrom
-  suffices H : ∀ (acc : List (Option Nat)),
-      ins.foldl (fun acc (p : Nat × Nat) => insertAt acc p.1 (fields[p.2]?)) (acc.map fun o => o.bind fun i => fields[i]?) =
-      (ins.foldl (fun acc (p : Nat × Nat) => insertAt acc p.1 ((List.range k)[p.2]?)) acc).map (fun o => o.bind fun i => fields[i]?) by
-    have := H (List.replicate init none)
-    simpa using this
-  induction ins with
-  | nil => intro acc; rfl
-  | cons p rest ih =>
-    intro acc
-    simp only [List.foldl_cons]
-    have hp : p.2 < k := hk p (by simp)
-    rw [← ih (fun q hq => hk q (List.mem_cons_of_mem _ hq))]
-    congr 1
-    rw [insertAt_map]
-    congr 1
-    simp [hp]
-
-theorem join_map_bind (fields : List Nat) (o : Option (Option Nat)) :
-    (o.map fun o => o.bind fun i => fields[i]?).join = o.join.bind fun i => fields[i]? := by
-  cases o with
-  | none => rfl
-  | some o => cases o <;> rfl
 
 /-- the labelled map: which `RegisterMap` field each DWARF number reads, per the CURRENT source -/
 def labelledMap : List (Option Nat) := dwarfMapFrom Dwregs.dwarfMapInit Dwregs.dwarfMapInserts (List.range Dwregs.numRegs)
